@@ -4,6 +4,7 @@ import CssVerif.Lemmas.TokDet
 import CssVerif.Lemmas.TokAppend
 import CssVerif.Lemmas.TokLex2
 import CssVerif.Lemmas.TokFull
+import CssVerif.Lemmas.TokLex2Full
 import CssVerif.Lemmas.TokPush
 /-!
 # C05 — tokenizer: total, lossless, position-accurate, classifies by the grammar
@@ -373,6 +374,15 @@ theorem lexeme_separation_all (doC : Bool) (ts : List Lex2) (h : ∀ t ∈ ts, t
     (tokenize (render2 ts) false doC).tokens.map proj =
       (expectedAll ts).filter (fun p => doC || p.1 != "COMMENT") :=
   tokenize_lexemes2 doC ts h hcs
+
+/-- **T5.6 in full-sheet mode**: the same tokens, followed by the end marker — on a rendered list of well-formed
+lexemes no completion happens (`full_sheet_completion`: the partial-sheet run contains no INVALID token, no FUNCTION
+that normalises to `url(`, no CHAR `/`). -/
+theorem lexeme_separation_all_fullsheet (doC : Bool) (ts : List Lex2) (h : ∀ t ∈ ts, t.WF)
+    (hcs : hasAt (render2 ts) charsetStart = false) :
+    (tokenize (render2 ts) true doC).tokens.map proj =
+      (expectedAll ts).filter (fun p => doC || p.1 != "COMMENT") ++ [("EOF", [])] :=
+  tokenize_lexemes2_full doC ts h hcs
 
 /-- S: a run of white space (tab, CR, LF, FF, space) up to the end of the text or a code point that is not white
 space -/
